@@ -25,6 +25,12 @@
 (*                                                                         *)
 (* Text is a sequence of characters.  A character is a one-character       *)
 (* string, or a token "U+XXXX" for a non-ASCII character.                  *)
+(*                                                                         *)
+(* Assumption made explicit: the specification speaks about *identifiers*. *)
+(* That a displayed text such as "m" followed by the arcsecond sign is     *)
+(* handed to name resolution as ONE identifier is a fact about the lexer   *)
+(* (not documented, hence not stated here); the conformance harness        *)
+(* observes it on the real reader and the check reports where it fails.    *)
 (***************************************************************************)
 EXTENDS Integers, Sequences, FiniteSets, TLC
 
